@@ -155,8 +155,7 @@ func TestVerifC14Fuse(t *testing.T) {
 	defer rec.Finish()
 	env := rec.Env
 	repository.TestUseLowSecurityKDFParameters(t)
-	ctx, cancel := context.WithTimeout(context.Background(), 60*time.Minute)
-	defer cancel()
+	ctx := context.Background() // no deadline: the per-step watchdogs below turn a stall into "inconclusive"
 	worlds := env.Pick(1, 3)
 	caseNo := 0
 	for wi := 0; wi < worlds; wi++ {
